@@ -148,11 +148,18 @@ static void val_print_depth(NanoValue v, FILE *out, int depth, ValPrintCtx *pc) 
     }
 }
 
+#ifdef NANOLANG_VERIF
+long long nanolang_verif_print_items = 0;
+#endif
+
 void val_print(NanoValue v, FILE *out) {
     ValPrintCtx pc;
     pc.containers_left = VAL_PRINT_MAX_CONTAINERS;
     pc.items_left = VAL_PRINT_MAX_ITEMS;
     val_print_depth(v, out, 0, &pc);
+#ifdef NANOLANG_VERIF
+    nanolang_verif_print_items += VAL_PRINT_MAX_ITEMS - pc.items_left;
+#endif
 }
 
 void val_println(NanoValue v) {
